@@ -19,11 +19,12 @@ RES=""
 for c in "$@"; do
   T=quick; ID=$c
   case $c in *:thorough) T=thorough; ID=${c%%:*};; esac
-  O=$(cd /verif && timeout 3000 bin/verif check $ID --tier $T 2>&1 | grep -v KNOWN-FINDING | head -4 | cut -c1-220)
+  O=$(cd /verif && VERIF_OUT=/tmp/seedcheck_out timeout 3000 bin/verif check $ID --tier $T 2>&1 | grep -v KNOWN-FINDING | head -4 | cut -c1-220)
   echo "--- check $ID ($T): $O"
   RES="$RES $ID/$T:$(echo "$O" | grep -c VIOLATION)"
 done
 cd /repo && git checkout -q -- . && git status --short | head -3
+rm -rf /tmp/seedcheck_out
 python3 - "$P" "$NAME" "$SUITE" "$DEMO_WITH" "$DEMO_WITHOUT" "$RES" <<'PY'
 import json,sys
 p,name,suite,dw,dwo,res=sys.argv[1:7]
